@@ -349,6 +349,13 @@ func (x *Exec) frameCheck(fc *FuncContract, env *Env, st *State, reach Term) {
 	if all {
 		return
 	}
+	// bookkeeping counters (`ghost counter`) are updated by contracts only and are not part of any frame
+	for _, gv := range x.eng.cs.GVars {
+		if gv.Counter {
+			k, _ := x.ghostVarKey(gv)
+			whole[k] = true
+		}
+	}
 	var keys []string
 	for k := range st.heap {
 		keys = append(keys, k)
